@@ -103,8 +103,8 @@ class _Node(nn.Module):
 
   def _make_child(self, op, parent=dataclasses.MISSING):
     tr = op.get('tr')
-    if tr == 'map_id':
-      tr = 'map_id_init' if self.is_initializing() else 'map_id_apply'
+    if tr in ('map_id', 'map_id_filter'):
+      tr = tr + ('_init' if self.is_initializing() else '_apply')
     return make_module(op['prog'], self.dim, shared=self.all_shared(),
                        name=op.get('name'), tr=tr, parent=parent)
 
@@ -315,6 +315,14 @@ def transformed_class(cls, tr):
       TRANSFORMED[key] = nn.map_variables(
           cls, 'params', trans_in_fn=lambda v: v, trans_out_fn=lambda v: v,
           mutable=ini, init=ini)
+    elif tr in ('map_id_filter_init', 'map_id_filter_apply'):
+      # the same idiom with the rngs / variables lifting filters spelled out
+      # (every stream and collection a program can use is named)
+      ini = tr == 'map_id_filter_init'
+      TRANSFORMED[key] = nn.map_variables(
+          cls, 'params', trans_in_fn=lambda v: v, trans_out_fn=lambda v: v,
+          mutable=ini, init=ini, rngs=['params'] + STREAMS,
+          variables=STATE_COLS + SOW_COLS + ['perturbations', 'late'])
     elif tr == 'jit_filter':
       TRANSFORMED[key] = nn.jit(cls, variables=['params'] + STATE_COLS +
                                 SOW_COLS + ['perturbations'], rngs=True)
@@ -324,8 +332,8 @@ def transformed_class(cls, tr):
 
 
 TR_PREFIX = {'jit': 'Jit', 'jit_filter': 'Jit', 'remat': 'Checkpoint',
-             'map_id': 'Map_variables'}
-ALL_TR = ['jit', 'jit_filter', 'remat', 'map_id']
+             'map_id': 'Map_variables', 'map_id_filter': 'Map_variables'}
+ALL_TR = ['jit', 'jit_filter', 'remat', 'map_id', 'map_id_filter']
 
 
 def make_module(prog, dim, shared=(), name=None, parent=dataclasses.MISSING,
